@@ -300,6 +300,9 @@ def signature(stderr_text):
     return kind + "@" + "<".join(sig) if sig else kind + "@-"
 
 
+_timeouts_seen = [0]  # per driver process: watchdog expiries triaged so far
+
+
 class Death:
     def __init__(self, case, sig, report, cfgname, extra=()):
         self.case = case
@@ -398,11 +401,14 @@ def run_chunk(binary, cfgname, seed, lo, hi, extra, workdir, tag, cpu, triage_bu
         what = m.group(1)
         # cases before 'case' in this process finished but their counters are lost; count them
         res.counters["cases"] = res.counters.get("cases", 0) + max(0, case - cur)
-        if triage_budget[0] <= 0:
+        if triage_budget[0] <= 0 or (what == "TIMEOUT" and _timeouts_seen[0] >= 4):
             res.unexplored += hi - case
-            res.inconclusive.append("triage budget exhausted")
+            if triage_budget[0] <= 0:
+                res.inconclusive.append("triage budget exhausted")
             break
         triage_budget[0] -= 1
+        if what == "TIMEOUT":
+            _timeouts_seen[0] += 1
         # re-run that case alone for a clean report
         cmd1 = [binary, "--seed", str(seed), "--only", str(case), "--cpu", str(cpu)] + extra
         rc1, out1, err1, wto1 = run_proc(cmd1, wall=max(120, cpu * 6), stack_mb=stack_mb)
@@ -429,7 +435,7 @@ def run_chunk(binary, cfgname, seed, lo, hi, extra, workdir, tag, cpu, triage_bu
 
 
 def run_cases(binaries, plan, seed, workdir, cpu=20, triage_cap=300, stack_mb=1024,
-              timeout_is_violation=False):
+              timeout_is_violation=True):
     """plan: list of (cfgname, lo, hi, extra_args). Runs chunks on NPROC processes."""
     os.makedirs(workdir, exist_ok=True)
     total = RunResult()
